@@ -63,6 +63,12 @@ def table_cols(n):
     return "|" + "a|" * n + "\n|" + "-|" * n + "\n|" + "x|" * n + "\n"
 
 
+def table_sparse(n):
+    # header with k columns, k body rows with one cell each: k*k cells are auto-completed from ~5k characters of input
+    k = max(2, n)
+    return "|" + "a|" * k + "\n|" + "-|" * k + "\n" + "|x|\n" * k
+
+
 def refdefs_consecutive(n):
     return "".join(f"[l{i}]: /u{i}\n" for i in range(n))
 
@@ -191,6 +197,7 @@ FAMILIES = {
     "table_rows": (table_rows, ["table"], ["table"]),
     "table_cols": (table_cols, ["table"], ["table"]),
     "pipes": (rep("|"), ["table", "text"], ["table"]),
+    "table_sparse": (table_sparse, ["table"], ["table"]),
     "refdefs_consecutive": (refdefs_consecutive, ["reference"], []),
     "refdefs_separated": (refdefs_separated, ["reference"], []),
     "ref_uses": (ref_uses, ["link"], []),
